@@ -222,8 +222,8 @@ func cmdCheck(args []string) {
 	fs := flag.NewFlagSet("check", flag.ExitOnError)
 	specPath := fs.String("spec", "", "check spec json")
 	tier := fs.String("tier", "", "quick|thorough (default $VERIF_TIER or quick)")
-	repo := fs.String("repo", "/repo", "repository root")
-	verif := fs.String("verif", "/verif", "verif root")
+	repo := fs.String("repo", envOr("VERIF_REPO", "/repo"), "repository root")
+	verif := fs.String("verif", envOr("VERIF_DIR", "/verif"), "verif root")
 	workers := fs.Int("j", runtime.NumCPU(), "workers")
 	solver := fs.String("solver", "z3", "z3|z3-new|cvc5")
 	noSelftest := fs.Bool("no-selftest", false, "skip the translator self-test")
@@ -541,4 +541,11 @@ func findingReproduces(o *checkOpts, f *Finding) bool {
 		return false
 	}
 	return nr.Violation != "" || nr.Panic != "" || nr.Hang
+}
+
+func envOr(k, d string) string {
+	if v := os.Getenv(k); v != "" {
+		return v
+	}
+	return d
 }
